@@ -96,11 +96,26 @@ pub fn observe(c: &PureCase, entry: u8) -> Result<Observed, String> {
     let n = c.hash.n();
     let seed = gen::expand(c.seed, n);
     if c.keygen {
-        let r = if entry % 2 == 0 {
-            libapi::keygen(c.hash, &c.levels, &seed, None)
-        } else {
-            let mut a = AuxBuf::new(vec![0u8; 1 + (entry as usize * 37) % 900]);
-            libapi::keygen(c.hash, &c.levels, &seed, Some(&mut a))
+        let r = match entry % 4 {
+            0 => libapi::keygen(c.hash, &c.levels, &seed, None),
+            1 => {
+                let mut a = AuxBuf::new(vec![0u8; 1 + (entry as usize * 37) % 900]);
+                libapi::keygen(c.hash, &c.levels, &seed, Some(&mut a))
+            }
+            2 => {
+                // a recycled buffer: marked unused, leftovers behind the marker
+                let mut v = gen::expand(entry as u64, 40 + (entry as usize * 53) % 1500);
+                for b in v.iter_mut() {
+                    if *b == 0 {
+                        *b = 0x3c;
+                    }
+                }
+                v[0] = 0;
+                let mut a = AuxBuf::new(v);
+                libapi::keygen(c.hash, &c.levels, &seed, Some(&mut a))
+            }
+            // the seed object built through Seed::from([u8; 32]) with foreign bytes beyond n
+            _ => libapi::keygen_seed_from_array(c.hash, &c.levels, &seed, entry | 1),
         };
         match r {
             Out::Ok((sk, pk)) => Ok(Observed { a: gen::hex(&sk), b: gen::hex(&pk) }),
@@ -109,13 +124,37 @@ pub fn observe(c: &PureCase, entry: u8) -> Result<Observed, String> {
     } else {
         let blob = hss::private_key_blob(&c.levels, c.counter, &seed);
         let msg = c.msg.bytes();
-        let (o, next): (Out<Vec<u8>>, Option<Vec<u8>>) = match entry % 3 {
+        let recycled = || {
+            let mut v = gen::expand(entry as u64 ^ 0x77, 60 + (entry as usize * 41) % 1500);
+            for b in v.iter_mut() {
+                if *b == 0 {
+                    *b = 0x5a;
+                }
+            }
+            v[0] = 0;
+            AuxBuf::new(v)
+        };
+        let (o, next): (Out<Vec<u8>>, Option<Vec<u8>>) = match entry % 6 {
             0 => {
                 let (o, calls) = libapi::sign(c.hash, &msg, &blob, Cb::Accept, None);
                 (o, calls.first().cloned())
             }
             1 => libapi::sign_via_key(c.hash, &msg, &blob, KeyEntry::TrySign, None),
-            _ => libapi::sign_via_key(c.hash, &msg, &blob, KeyEntry::TrySignWithAuxNone, None),
+            2 => libapi::sign_via_key(c.hash, &msg, &blob, KeyEntry::TrySignWithAuxNone, None),
+            3 => {
+                let mut a = recycled();
+                let (o, calls) = libapi::sign(c.hash, &msg, &blob, Cb::Accept, Some(&mut a));
+                (o, calls.first().cloned())
+            }
+            4 => {
+                let mut a = recycled();
+                libapi::sign_via_key(c.hash, &msg, &blob, KeyEntry::TrySign, Some(&mut a))
+            }
+            _ => {
+                let mut a = AuxBuf::new(vec![0u8; 900]);
+                let (o, calls) = libapi::sign(c.hash, &msg, &blob, Cb::Accept, Some(&mut a));
+                (o, calls.first().cloned())
+            }
         };
         match (o, next) {
             (Out::Ok(s), Some(nk)) => Ok(Observed { a: gen::hex(&s), b: gen::hex(&nk) }),
@@ -297,7 +336,7 @@ pub fn check_reload(c: &ReloadCase) -> Verdict {
     pass(format!("reload|L{}|k{}", c.levels.len(), k.min(9)), true)
 }
 
-const SHAPES: &[&[(u32, u32)]] = &[&[(8, 2)], &[(4, 5)], &[(8, 2), (4, 2)], &[(4, 2), (8, 5)], &[(8, 2), (4, 2), (2, 2)], &[(1, 2), (8, 2)], &[(2, 5)]];
+const SHAPES: &[&[(u32, u32)]] = &[&[(8, 2)], &[(4, 5)], &[(8, 2), (4, 2)], &[(4, 2), (8, 5)], &[(8, 2), (4, 2), (2, 2)], &[(1, 2), (8, 2)], &[(2, 5)], &[(2, 10)], &[(4, 10), (8, 2)]];
 
 fn ctx_op() -> BoxedStrategy<CtxOp> {
     prop_oneof![
